@@ -2,6 +2,7 @@ import ScriggoV.Lemmas.EscapeHtml
 import ScriggoV.Lemmas.EscapeCss
 import ScriggoV.Lemmas.EscapeUrl
 import ScriggoV.Lemmas.EscapeJs
+import ScriggoV.Lemmas.URLQuery
 /-! C07 — escaped values decode back to the exact original text.
 
 Escapers: `Model/Escape.lean` (loops hand-written, tables/predicates regenerated from
@@ -129,3 +130,82 @@ example : jsStringEscapeOut [0xFF, 0xE2, 0x80, 0x27, 0xE2, 0x80, 0xA8]
   decide +kernel
 
 end ScriggoV.Escape
+
+/-! ### Values in URL attributes: the renderer's URL state machine
+`Model/URLState.lean` (C05's model of `renderer.Text` / `showInURL` / `endURL`) says which
+escaper a shown value gets; `Model/URLRender.lean` renders its tokens with the escaper models. -/
+namespace ScriggoV.URLRender
+open ScriggoV ScriggoV.URLState ScriggoV.Escape ScriggoV.Decode
+
+/-- **Query values, for all call sequences.** Take any calls `pre` (no `srcset`-like `Text`)
+that leave the renderer inside a URL attribute, then a literal text `txt` of that URL such that
+the URL has a query by now — it had one before (`?`/`#` in an earlier text, or `?` in an earlier
+value) or `txt` contains `?` or `#`. Then whatever follows inside the same attribute, every
+literal text is written unchanged and every shown value is written by `queryEscape`
+(`tok`), the state stays settled, and no index can fault. -/
+theorem url_values_after_text_query_escaped (pre cs : List Call) (txt : Bytes)
+    (r0 r1 : State) (o0 o1 : List Out)
+    (hpre : ∀ c ∈ pre, notSet c = true)
+    (h0 : run pre = .ok (r0, o0)) (hu : r0.inURL = true)
+    (h1 : step r0 (.text txt true false) = .ok (r1, o1))
+    (hq : r0.query = true ∨ hasQ txt = true)
+    (hcs : ∀ c ∈ cs, urlCall c = true) :
+    ∃ r2, run (pre ++ .text txt true false :: cs) = .ok (r2, o0 ++ (o1 ++ cs.flatMap tok)) ∧
+      Settled r2 := by
+  have hi : Inv r0 := inv_run pre {} r0 o0 inv_init hpre h0
+  have hs : Settled r1 := settle_text r0 r1 o1 txt hi hu h1 hq
+  obtain ⟨r2, h2, hs2⟩ := settled_run cs r1 hs hcs
+  refine ⟨r2, ?_, hs2⟩
+  unfold run at h0 ⊢
+  rw [runFrom_append, h0]
+  simp [runFrom, h1, h2, bind, Except.bind, pure, Except.pure]
+
+/-- what such a value looks like in the output, and that it decodes back: `showInURL` passes
+`html.UnescapeString(htmlEscape v)` — which is `v` — to `queryEscape` -/
+theorem url_query_value_decodes (plusAsSpace : Bool) (v : Bytes) (inURL quoted : Bool) :
+    render (tok (.show (shownString v) inURL quoted)) = queryEscapeOut v ∧
+    pctDecode plusAsSpace (render (tok (.show (shownString v) inURL quoted))) = some v := by
+  have hv : shownString v = v := html_roundtrip stdNamed ⟨fun _ => rfl, fun _ => rfl, fun _ => rfl⟩ v
+  simp [tok, render, renderOut, hv, query_roundtrip]
+
+-- non-vacuity, and the regression this guards: `<a href="{{ base }}&b={{ v }}">` with
+-- base = "/p?a=1": the `?` comes from an earlier *value*, the text `&b=` settles the state,
+-- and `v` is query-escaped
+example : (run [.text [0x3C] false false, .show [0x2F,0x70,0x3F,0x61,0x3D,0x31] true true,
+      .text [0x26,0x62,0x3D] true false, .show [0x78,0x26,0x79] true true]).toOption.map Prod.snd
+    = some [.raw [0x3C], .path [0x2F,0x70,0x3F,0x61,0x3D,0x31] true, .raw [0x26,0x62,0x3D],
+        .query [0x78,0x26,0x79]] := by decide +kernel
+
+/-- The unconditional reading — "after the first `?`, from wherever, every value is
+query-escaped" — is **false of the code**: a value that directly follows (no literal text in
+between) the value that brought the `?` is written by `pathEscape`, which keeps `& = # +`.
+Known finding `url-adjacent-values` (replayed on the real engine by the harness). -/
+def EveryValueAfterQuestionMarkIsQueryEscaped : Prop :=
+  ∀ (s1 s2 : Bytes) (q : Bool), s1.contains 0x3F = true →
+    ∃ r o, run [.show s1 true q, .show s2 true q] = .ok (r, o ++ [.query s2])
+
+theorem not_everyValueAfterQuestionMarkIsQueryEscaped :
+    ¬ EveryValueAfterQuestionMarkIsQueryEscaped := by
+  intro h
+  obtain ⟨r, o, h⟩ := h [0x3F] [0x31] true rfl
+  have : (run [.show [0x3F] true true, .show [0x31] true true]).toOption.map Prod.snd
+      = some [.path [0x3F] true, .path [0x31] true] := by decide +kernel
+  rw [h] at this
+  simp [Except.toOption] at this
+  have hl := congrArg List.getLast? this
+  simp at hl
+
+/-- Why `url_values_after_text_query_escaped` excludes `srcset`-like attributes: at a comma
+`Text` resets only `query`; `removeQuestionMark` and `addAmpersand` left by an earlier value
+with a `?` survive into the next URL of the set, whose value after `?w=` is then written by
+`pathEscape` (and an `&amp;` is inserted before the next text). Known finding
+`url-srcset-stale-flags`: `a?b=` `, ` `img` `?w=` `x&y` ` 2x`. -/
+theorem srcset_stale_flags :
+    (run [.show [0x61,0x3F,0x62,0x3D] true true, .text [0x2C,0x20] true true,
+          .show [0x69,0x6D,0x67] true true, .text [0x3F,0x77,0x3D] true true,
+          .show [0x78,0x26,0x79] true true, .text [0x20,0x32,0x78] true true]).toOption.map Prod.snd
+      = some [.path [0x61,0x3F,0x62,0x3D] true, .raw [0x2C,0x20], .path [0x69,0x6D,0x67] true,
+          .raw [0x3F,0x77,0x3D], .path [0x78,0x26,0x79] true, .amp, .raw [0x20,0x32,0x78]] := by
+  decide +kernel
+
+end ScriggoV.URLRender
